@@ -101,6 +101,21 @@ def handle : List String → String
       else if mode = "init" then resStr f (Projection.decoderInit (fsok != 0) ch st co dm size)
       else "bad-op"
     | _, _, _, _, _, _ => "bad-op"
+  | ["mixin24", o, which, inputRows, outputRow, outputRows, frameSize, ints] =>
+    match parseNat o, parseNat inputRows, parseNat outputRow, parseNat outputRows, parseNat frameSize, parseIntList ints with
+    | some o, some ir, some orow, some ors, some n, some input =>
+      match pickMatrix o which with
+      | none => "bad-op"
+      | some m => resStr floatOutStr (multiplyChannelInInt24 m input ir orow ors n)
+    | _, _, _, _, _, _ => "bad-op"
+  | ["mixout24", o, which, inputRow, inputRows, outputRows, frameSize, bits, outInit] =>
+    match parseNat o, parseNat inputRow, parseNat inputRows, parseNat outputRows, parseNat frameSize,
+          parseDyList bits, parseIntList outInit with
+    | some o, some irow, some irs, some ors, some n, some input, some out0 =>
+      match pickMatrix o which with
+      | none => "bad-op"
+      | some m => resStr (fun out => "OK " ++ listStr (out.map toString)) (multiplyChannelOutInt24 m input irow irs out0 ors n)
+    | _, _, _, _, _, _, _ => "bad-op"
   | ["mixinf", o, which, inputRows, outputRow, outputRows, frameSize, bits] =>
     match parseNat o, parseNat inputRows, parseNat outputRow, parseNat outputRows, parseNat frameSize, parseDyList bits with
     | some o, some ir, some orow, some ors, some n, some input =>
